@@ -254,4 +254,98 @@ theorem eval_borderE (pb : Problem) (σ : Asg) (p q : Nat × Nat) (i j : Nat) :
   simp only [cmpOp_ne, Option.some.injEq, Val.b.injEq]
   cases sh pb σ p <;> cases sh pb σ q <;> simp
 
+/-! ### typing and locality -/
+
+theorem orE_wt (l : List Expr) (h : ∀ x ∈ l, wtB x = true) : wtB (orE l) = true := by
+  unfold orE
+  split
+  · rfl
+  · simp only [wtB]; exact (C11FragWT.wtBs_iff l).2 h
+
+theorem orE_varsBelow (n : Nat) (l : List Expr) (h : ∀ x ∈ l, x.varsBelow n = true) :
+    (orE l).varsBelow n = true := by
+  unfold orE
+  split
+  · simp [Expr.varsBelow, Expr.varsBelow.varsBelowList]
+  · rw [C11FragWT.varsBelow_node]; exact h
+
+theorem cvs_wt (pb : Problem) {l : List (Nat × Nat)} (hl : ∀ p ∈ l, OnB pb p) :
+    ∀ x ∈ l.map (cv pb.width), wtB x = true ∧ x.varsBelow (pb.height * pb.width) = true := by
+  intro x hx
+  simp only [List.mem_map] at hx
+  obtain ⟨p, hp, rfl⟩ := hx
+  exact cv_wt pb (hl p hp)
+
+theorem cntE_wt (pb : Problem) {b : List (Nat × Nat)} (hb : ∀ p ∈ b, OnB pb p) :
+    wtB (cntE pb b) = true ∧ (cntE pb b).varsBelow (pb.height * pb.width) = true :=
+  ⟨C11FragWT.wtB_cmp_countTrueE .eq rfl _ 4 (fun x hx => (cvs_wt pb hb x hx).1),
+    C11FragWT.varsBelow_cmp_countTrueE _ .eq _ 4 (fun x hx => (cvs_wt pb hb x hx).2)⟩
+
+theorem nbrE_wt (pb : Problem) (i : Nat) {p : Nat × Nat} (hp : OnB pb p) :
+    wtB (nbrE pb i p) = true ∧ (nbrE pb i p).varsBelow (pb.height * pb.width) = true := by
+  have hs := cvs_wt pb (l := sameN pb i p) (fun q hq => sameN_onB hp hq)
+  have h1 := orE_wt _ (fun x hx => (hs x hx).1)
+  have h2 := orE_varsBelow _ _ (fun x hx => (hs x hx).2)
+  unfold nbrE
+  refine ⟨by simp [wtB, wtBs, h1, cv], ?_⟩
+  rw [C11FragWT.varsBelow_node]
+  intro x hx
+  simp only [List.mem_cons, List.not_mem_nil, or_false] at hx
+  rcases hx with rfl | rfl
+  · exact (cv_wt pb hp).2
+  · exact h2
+
+theorem pairsE_wt (pb : Problem) (i : Nat) {b : List (Nat × Nat)} (hb : ∀ p ∈ b, OnB pb p) :
+    ∀ x ∈ b.flatMap (pairsE pb i), wtB x = true ∧ x.varsBelow (pb.height * pb.width) = true := by
+  intro x hx
+  simp only [List.mem_flatMap, pairsE, List.mem_map, List.mem_filter] at hx
+  obtain ⟨p, hp, q, ⟨hq, _⟩, rfl⟩ := hx
+  have h1 := cv_wt pb (hb p hp)
+  have h2 := cv_wt pb (sameN_onB (hb p hp) hq)
+  refine ⟨by simp [wtB, wtBs, cv], ?_⟩
+  rw [C11FragWT.varsBelow_node]
+  intro x hx
+  simp only [List.mem_cons, List.not_mem_nil, or_false] at hx
+  rcases hx with rfl | rfl
+  · exact h1.2
+  · exact h2.2
+
+theorem pairCntE_wt (pb : Problem) (i : Nat) {b : List (Nat × Nat)} (hb : ∀ p ∈ b, OnB pb p) :
+    wtB (pairCntE pb i b) = true ∧ (pairCntE pb i b).varsBelow (pb.height * pb.width) = true :=
+  ⟨C11FragWT.wtB_cmp_countTrueE .eq rfl _ 3 (fun x hx => (pairsE_wt pb i hb x hx).1),
+    C11FragWT.varsBelow_cmp_countTrueE _ .eq _ 3 (fun x hx => (pairsE_wt pb i hb x hx).2)⟩
+
+theorem straightE_wt (pb : Problem) (i : Nat) (b : List (Nat × Nat)) :
+    ∀ x ∈ b.flatMap (straightE pb i), wtB x = true := by
+  intro x hx
+  simp only [List.mem_flatMap] at hx
+  obtain ⟨p, _, hx⟩ := hx
+  unfold straightE tmpE at hx
+  cases h1 : vertOK pb i p <;> cases h2 : horizOK pb i p <;> simp [h1, h2] at hx <;> subst hx <;>
+    simp [wtB, wtBs, vE, hE, cv]
+
+theorem nsE_wt (pb : Problem) (i : Nat) (b : List (Nat × Nat)) : wtB (nsE pb i b) = true := by
+  have := C11FragWT.wtI_countTrueE _ (straightE_wt pb i b)
+  unfold nsE nsV
+  simp [wtB, wtIs, wtI, this]
+
+theorem tsE_wt (pb : Problem) (i : Nat) (b : List (Nat × Nat)) :
+    ∀ x ∈ b.flatMap (tsE pb i), wtB x = true := by
+  intro x hx
+  rw [tsE_eq] at hx
+  simp only [List.mem_map] at hx
+  obtain ⟨p, _, rfl⟩ := hx
+  exact C11FragWT.wtB_cmp_countTrueE .ge rfl _ 3 (by
+    intro y hy
+    simp only [List.mem_map] at hy
+    obtain ⟨_, _, rfl⟩ := hy; rfl)
+
+theorem htE_wt (pb : Problem) (i : Nat) (b : List (Nat × Nat)) : wtB (htE pb i b) = true := by
+  have := orE_wt _ (tsE_wt pb i b)
+  unfold htE htV
+  simp [wtB, wtBs, this]
+
+theorem borderE_wt (pb : Problem) (p q : Nat × Nat) (i j : Nat) : wtB (borderE pb p q i j) = true := by
+  simp [borderE, wtB, wtBs, wtIs, wtI, nsV, htV, cv]
+
 end Cspuz.Proofs.C11LitsS
